@@ -872,6 +872,8 @@ func c16Oracle(cv *c16Conv, obs *c16Obs) string {
 
 // ---------- cases ----------
 
+var c16RetryMu sync.Mutex
+
 func (env *c16Env) do(cx *ctx, kind string, cv *c16Conv) {
 	env.wg.Add(1)
 	cx.ru.Do(func() *h.Case {
@@ -883,6 +885,26 @@ func (env *c16Env) do(cx *ctx, kind string, cv *c16Conv) {
 		obs := env.run(slot, cv)
 		if !obs.hung {
 			env.slots <- slot // a hung call keeps its plugin process: retire the slot
+		}
+		if !obs.hung && strings.Contains(obs.meta, "stopped=deadline") {
+			// The plugin's watchdog is wall-clock time: on a machine busy with other work a conversation that is
+			// merely starved looks like one that stalled. Judge a stall only if it REPRODUCES when the conversation is
+			// run again on its own (one retry at a time) with an eight times longer watchdog.
+			c16RetryMu.Lock()
+			old, had := os.LookupEnv("VERIF_PLUGIN_DEADLINE")
+			os.Setenv("VERIF_PLUGIN_DEADLINE", "120s")
+			slot2 := <-env.slots
+			obs2 := env.run(slot2, cv)
+			if !obs2.hung {
+				env.slots <- slot2
+			}
+			if had {
+				os.Setenv("VERIF_PLUGIN_DEADLINE", old)
+			} else {
+				os.Unsetenv("VERIF_PLUGIN_DEADLINE")
+			}
+			c16RetryMu.Unlock()
+			obs = obs2
 		}
 		if obs.hung || strings.Contains(obs.meta, "stopped=deadline") {
 			atomic.AddInt32(&env.stalls, 1)
